@@ -741,3 +741,61 @@ def fake_extension_module(name, peer, recorder=None):
     m.solver = solver
     m.__verif_fake__ = True
     return m
+
+
+# --------------------------------------------------------------------------------------
+# installing the peer behind the seams cspuz already has
+# --------------------------------------------------------------------------------------
+
+import contextlib
+import sys as _sys
+
+_MISSING = object()
+EXT_MODULES = ("pycsugar", "enigma_csp", "cspuz_core")
+
+
+@contextlib.contextmanager
+def installed_peer(peer, recorder=None, modules=EXT_MODULES):
+    """Route subprocess calls and extension-module calls of cspuz to ``peer``."""
+    import cspuz.backend._subproc as sp
+
+    saved_sub = sp.subprocess
+    saved_mods = {n: _sys.modules.get(n, _MISSING) for n in EXT_MODULES}
+    fake = FakeSubprocessModule(peer, recorder)
+    sp.subprocess = fake
+    for n in EXT_MODULES:
+        if n in modules:
+            _sys.modules[n] = fake_extension_module(n, peer, recorder)
+        else:
+            _sys.modules[n] = None  # import raises ImportError
+    try:
+        yield fake
+    finally:
+        sp.subprocess = saved_sub
+        for n, m in saved_mods.items():
+            if m is _MISSING:
+                _sys.modules.pop(n, None)
+            else:
+                _sys.modules[n] = m
+
+
+@contextlib.contextmanager
+def counted_z3(cap_holder):
+    """Counts z3.Solver.check calls; raises NoReturnWithinBound beyond cap_holder['cap']."""
+    import z3
+
+    orig = z3.Solver.check
+
+    def check(self, *a, **kw):
+        cap_holder["calls"] = cap_holder.get("calls", 0) + 1
+        cap_holder["total"] = cap_holder.get("total", 0) + 1
+        cap = cap_holder.get("cap")
+        if cap is not None and cap_holder["calls"] > cap:
+            raise NoReturnWithinBound(f"z3 check() called {cap_holder['calls']} times, bound {cap}")
+        return orig(self, *a, **kw)
+
+    z3.Solver.check = check
+    try:
+        yield
+    finally:
+        z3.Solver.check = orig
